@@ -53,6 +53,10 @@ pub struct TransferView {
     /// a fragmented response started earlier on this key had not been served
     /// to its final block when this transfer's first request arrived
     pub open_before: bool,
+    /// between two of its own exchanges (or inside one, in split-phase) the
+    /// key stayed idle for the configured expiry or longer: the handler may
+    /// legitimately have dropped the transfer's state
+    pub expired_within: bool,
 }
 
 fn reply_packet(a: &Arrival) -> Option<Fields> {
@@ -104,8 +108,27 @@ pub fn classify(server: &Server, lanes: &[Lane]) -> Vec<TransferView> {
                 clean_before: false,
                 probe_adjacent: false,
                 open_before: false,
+                expired_within: false,
             };
             v.shape = shape_of(log, t, &v.arrivals);
+            {
+                let e = server.cfg.expiry_ns;
+                let mut all: Vec<usize> = v.arrivals.iter().chain(v.probes.iter()).copied().collect();
+                all.sort_unstable();
+                let mut prev_done: Option<u64> = None;
+                for &sq in &all {
+                    let a = &log[sq];
+                    if let Some(p) = prev_done {
+                        if a.time.saturating_sub(p) >= e {
+                            v.expired_within = true;
+                        }
+                    }
+                    if a.time_done.saturating_sub(a.time) >= e {
+                        v.expired_within = true;
+                    }
+                    prev_done = Some(a.time_done);
+                }
+            }
             if let Some(&first) = v.arrivals.first() {
                 if let Some(k) = &log[first].key {
                     v.key = Some((lane.ep, k.clone()));
@@ -390,6 +413,10 @@ pub fn check_c09(server: &Server, t: &TransferSpec, v: &TransferView, stats: &mu
         stats.hit("c09.out-of-premise.history");
         return false;
     }
+    if v.expired_within {
+        stats.hit("c09.out-of-premise.expiry-elapsed");
+        return false;
+    }
     // budget admits the client's block size for every block of the transfer
     let body = match &t.kind {
         TKind::Upload { body_id, len, .. } => gen_body(*body_id, *len),
@@ -541,6 +568,10 @@ pub fn check_c08(server: &Server, lane: &Lane, t: &TransferSpec, v: &TransferVie
     };
     if !v.contiguous {
         stats.hit("c08.out-of-premise.history");
+        return false;
+    }
+    if v.expired_within {
+        stats.hit("c08.out-of-premise.expiry-elapsed");
         return false;
     }
     let a0 = &log[v.arrivals[dl_first]];
